@@ -559,6 +559,13 @@ Proof.
 Qed.
 
 (* ------------------------------------------------------------------ C15: Transaction-Finished at the receiver *)
+(* a run of the body of state_machine that ends normally passes through the try / except of state_machine *)
+Lemma sm_none_run : forall (m : D unit) s s',
+  m s = (s', Ok tt) -> ((ret tt : D unit) ;;; catch_abandoned m) s = (s', Ok tt).
+Proof.
+  intros m s s' H. unfold catch_abandoned, catch, bind at 1, ret at 1. rewrite H. reflexivity.
+Qed.
+
 Lemma completion_reports_finished_pdu : forall s r a b,
   d_state s = ST_BUSY -> d_step s = DS_TRANSFER_COMPLETION -> d_queue s = [] -> d_ready s = 0 ->
   p_rcfg (d_p s) = Some r -> p_tid (d_p s) = Some (a, b) -> 0 < r_ack_ms r -> l_ind_fin (d_cfg s) = true ->
@@ -576,13 +583,13 @@ Proof.
   cbn in Hst, Hstep, Hq, Hrd, Hr, Ht, Hfin, Hmode. subst.
   destruct r as [rid ridw rms rmp rcl rcrc rmode rck rackms racklim rchk rdisp rimm rnakms rnaklim].
   cbn in Hack.
-  unfold Dest.state_machine.
+  unfold Dest.state_machine. cbv iota.
   assert (Hleb : (rackms <=? 0) = false) by (apply Z.leb_gt; exact Hack).
   destruct Hmode as [Hm|[Hm Hc]]; subst;
     (destruct disp as [|[p|p|]|p];
      [ | | | destruct rdisp; [destruct dl as [|[p|p|]|p]|] | ]);
     (do 5 eexists; split;
-     [ cbn; try (unfold timed_out; cbn [Datatypes.fst Datatypes.snd]; rewrite Z.sub_diag, Hleb; cbn [negb]); reflexivity
+     [ apply sm_none_run; cbn; try (unfold timed_out; cbn [Datatypes.fst Datatypes.snd]; rewrite Z.sub_diag, Hleb; cbn [negb]); reflexivity
      | split; reflexivity ]).
 Qed.
 
